@@ -14,6 +14,7 @@ import (
 	"sort"
 	"strings"
 
+	"storj.io/drpc"
 	"storj.io/drpc/drpcmanager"
 	"storj.io/drpc/drpcstream"
 
@@ -24,6 +25,7 @@ import (
 	"verifharness/rig"
 	"verifharness/runner"
 	"verifharness/simnet"
+	"verifharness/wiregen"
 	"verifharness/wl"
 )
 
@@ -250,8 +252,99 @@ func keyOf(s string) string {
 var writeKinds = []simnet.FaultKind{simnet.FaultWriteErr, simnet.FaultWritePartial}
 var readKinds = []simnet.FaultKind{simnet.FaultReadErr, simnet.FaultReadDataErr, simnet.FaultPeerEOF, simnet.FaultPeerReset, simnet.FaultLocalClose}
 
+// rawServer: a raw peer writes a prefix of a valid client session (including RPCs abandoned before
+// their invoke) and the transport then ends at that point; the server endpoint must notice by itself.
+func rawServer(id string, seed uint64) runner.Result {
+	base := census.IDs(census.Snapshot())
+	r := &payload.SplitMix{S: seed}
+	fs := wiregen.ConformingClientSession(r)
+	var in []byte
+	var edges []int
+	for _, f := range fs {
+		in = refwire.Encode(in, f)
+		edges = append(edges, len(in))
+	}
+	cut := len(in)
+	switch r.Intn(4) {
+	case 0:
+		cut = edges[r.Intn(len(edges))]
+	case 1:
+		cut = r.Intn(len(in) + 1)
+	}
+	kind := payload.Pick(r, []simnet.FaultKind{simnet.FaultReadErr, simnet.FaultPeerEOF, simnet.FaultPeerReset, simnet.FaultNone})
+	opts := drpcmanager.Options{SoftCancel: r.Intn(2) == 0}
+	echo := rig.HandlerFunc(func(stream drpc.Stream, rpc string) error {
+		for {
+			var m []byte
+			if err := stream.MsgRecv(&m, payload.Enc{}); err != nil {
+				return nil
+			}
+			if err := stream.MsgSend(&m, payload.Enc{}); err != nil {
+				return err
+			}
+		}
+	})
+	rg := rig.New(rig.Config{Net: simnet.Opts{Cap: -1}, Server: opts, NoConn: true}, echo)
+	raw, under := rg.Pair.A, rg.Pair.B
+	rig.Go("drain", func() (interface{}, error) {
+		buf := make([]byte, 4096)
+		for {
+			if _, err := raw.Read(buf); err != nil {
+				return nil, nil
+			}
+		}
+	})
+	desc := fmt.Sprintf("raw client session, %d of %d bytes, then %v (soft=%v): %x", cut, len(in), kind, opts.SoftCancel, in[:cut])
+	if kind != simnet.FaultNone {
+		under.SetFault(simnet.Fault{Kind: kind, Offset: int64(cut)})
+	}
+	if kind != simnet.FaultNone {
+		// the fault plan fires on the read that would cross the offset: one more byte is on its way
+		raw.Write(append(append([]byte{}, in[:cut]...), 0))
+	} else {
+		raw.Write(in[:cut])
+	}
+	census.Quiesce(rig.Watchdog)
+	if kind == simnet.FaultNone {
+		raw.Close() // the peer simply goes away
+	}
+	st, snap := census.QuiesceOr(nil, rig.Watchdog)
+	if st == "watchdog" {
+		rg.Teardown()
+		return runner.Inconcl(id, "watchdog: "+desc)
+	}
+	var fails []string
+	if !rg.ServeOp.Returned() {
+		fails = append(fails, "the transport ended but ServeOne has not returned at quiescence: the server endpoint did not notice\n"+census.Dump(census.InDRPC(snap)))
+	}
+	rg.StopServe()
+	raw.Close()
+	under.Close()
+	_, snap = census.Quiesce(rig.Watchdog)
+	if left := census.NewSince(census.InDRPC(snap), base); len(left) > 0 && len(fails) == 0 {
+		fails = append(fails, "library goroutines left behind after the transport ended:\n"+census.Dump(left))
+	}
+	rg.Teardown()
+	if len(fails) > 0 {
+		return runner.Violation(id, "fault:raw-session:"+keyOf(fails[0]), desc+"\n"+strings.Join(fails, "\n"))
+	}
+	res := runner.Hold(id, desc, true)
+	res.Events = int64(len(fs))
+	res.Stats = map[string]int64{"raw_sessions": 1}
+	return res
+}
+
 func gen(tier string, seed uint64) []runner.Scenario {
 	var out []runner.Scenario
+	nraw := 300
+	if tier == "thorough" {
+		nraw = 20000
+	}
+	for i := 0; i < nraw; i++ {
+		i := i
+		id := fmt.Sprintf("raw-server/%d", i)
+		out = append(out, runner.Scenario{ID: id, Run: func() runner.Result { return rawServer(id, payload.Hash(seed, 0xC05A, uint64(i))) }})
+	}
 	r := &payload.SplitMix{S: payload.Hash(seed, 0xC05)}
 	for wi, w := range wl.Workloads {
 		la, lb, ea, eb, ok := dryRun(w)
@@ -315,7 +408,7 @@ func main() {
 	runner.Main(runner.Check{
 		Property: "C05",
 		Level:    "fault_enumeration",
-		Rule:     "fault points: for each of 12 deterministic workloads (unary small / multi-frame / with metadata / failing handler, client-, server-, bidirectional streams, failing bidi, two RPCs on one connection, early client close, flush-per-frame and 6 KB unary over a rendezvous transport) a fault-free run yields the byte streams and frame edges; one case = (workload, faulted endpoint, fault kind in {write error, partial write, read error, data+error, peer EOF, peer reset, local close}, byte offset, read chunking). quick: every frame edge, edge-1, edge+1, offset 0 and 8 seeded interior offsets per direction with one seeded chunking; thorough: every byte offset x all three chunkings. Non-trivial: the fault actually fired. Distinct: by case tuple.",
+		Rule:     "fault points: for each of 12 deterministic workloads (unary small / multi-frame / with metadata / failing handler, client-, server-, bidirectional streams, failing bidi, two RPCs on one connection, early client close, flush-per-frame and 6 KB unary over a rendezvous transport) a fault-free run yields the byte streams and frame edges; one case = (workload, faulted endpoint, fault kind in {write error, partial write, read error, data+error, peer EOF, peer reset, local close}, byte offset, read chunking). quick: every frame edge, edge-1, edge+1, offset 0 and 8 seeded interior offsets per direction with one seeded chunking; thorough: every byte offset x all three chunkings. Plus raw-server cases: a raw peer writes a seeded prefix (whole, frame edge, any byte) of a valid client session that may contain RPCs abandoned before their invoke (metadata and/or cancel only), then the transport ends (read error, EOF, reset, peer close); ServeOne must return without anybody telling it. Non-trivial: the fault actually fired. Distinct: by case tuple.",
 		Assumptions: []string{
 			"fault model is fail-stop: after the fault the endpoint's reads and writes both fail and the peer sees EOF or a reset after the surviving bytes; a transport whose writes fail while its reads stay healthy forever is not modelled (by design write errors are returned to the caller and the read error terminates the manager)",
 			"'every later call fails' is checked by issuing a send and a receive on each old stream, an Invoke and a NewStream after the process came to rest",
